@@ -337,7 +337,8 @@ def builtin (f : String) (args : List Val) : Option (R Val) :=
     match args with
     | [] => some (.ok (.list []))
     | .int 0 :: _ => some (.ok (.list []))
-    | _ => some (.stuck "make with non-zero length")
+    | .int n :: _ => if n < 0 then some .panic else some (.ok (.list (List.replicate n.toNat .nil)))   -- zero values of a slice of pointers
+    | _ => some (.stuck "make with a non-integer length")
   else if f = "min" then
     match args with
     | [.int a, .int b] => some (.ok (.int (if a ≤ b then a else b)))
